@@ -185,7 +185,7 @@ func runReal(c rCase) (viol string, inconclusive bool, answered int64) {
 			wc := w.conns[s]
 			b, _ := proto.Marshal(&hagallpb.ParticipantJoinRequest{Type: TJoinReq, Timestamp: nowTS(), RequestId: 1})
 			websocket.Message.Send(wc.ws, b)
-			rx, ok := waitInbox(wc, 1, 10*time.Second, TJoinResp)
+			rx, ok := waitInbox(wc, 1, 30*time.Second, TJoinResp)
 			if !ok {
 				return "", true, 0
 			}
@@ -201,7 +201,9 @@ func runReal(c rCase) (viol string, inconclusive bool, answered int64) {
 					}
 					return websocket.Message.Send(wc.ws, b)
 				},
-				waitFor: func(req uint32, types ...int32) (Rx, bool) { return waitInbox(wc, req, 20*time.Second, types...) },
+				// no wall-clock verdict on a single request: a lost answer shows as "no request answered
+				// for 45 s while clients wait" (awaitClients), which a busy machine cannot produce
+				waitFor: func(req uint32, types ...int32) (Rx, bool) { return waitInbox(wc, req, 150*time.Second, types...) },
 			}
 			wg.Add(1)
 			go func(i int) {
